@@ -19,6 +19,10 @@ Definition step_401_core (idx : Z) (t : Z) (v : tval) (kind : Z) (p : list pstep
     match decode_all st sb with
     | None => (VSkip, None)
     | Some x =>
+      (* an INSERTION outside the API contract (element of a type the container does not declare, count overflow, malformed
+         key: set_compat of ThriftEdit.v, the hypothesis of C04_ast_set_wf) is outside the property's domain: the history
+         ends here, what was judged so far stands *)
+      if negb (wf x && set_compat p x v) then (VOk, None) else
       (* the next model state is always ast_step (the function the history theorems of Properties_C04 are about) *)
       match ast_set true p x v with
       | None => (expect (100 + idx) ((err =? 1) && bytes_eqb res prev) [FZ 1; FB prev], Some (ast_step true v (OSet p x)))
